@@ -287,11 +287,17 @@ def _run_one(case, ctx):
     if rng.random() < 0.4:
         same = recipes.fresh(case["recipe"])
         d1 = {k_: v_ for k_, v_ in rand_partial(rng, graph, top).items() if graph[k_]["leaf"]}
-        ctx.call("evaluate_propositions", same.evaluate_propositions, dict(d1))
+        held = dict(d1)
+        ctx.call("evaluate_propositions", same.evaluate_propositions, held)
         d2 = {k_: v_ for k_, v_ in rand_partial(rng, graph, top).items() if graph[k_]["leaf"] and rng.random() < 0.5}
-        with monitor.guard():
-            pass
-        r2 = ctx.call("evaluate_propositions", same.evaluate_propositions, dict(d2))
+        if rng.random() < 0.5:
+            # the caller keeps ONE interpretation dict and edits it in place between the two calls
+            held.clear()
+            held.update(d2)
+            ctx.count("count:interpretation-dict-edited-in-place")
+        else:
+            held = dict(d2)
+        r2 = ctx.call("evaluate_propositions", same.evaluate_propositions, held)
         box = {nid: tuple(n["b"]) for nid, n in graph.items() if n["leaf"]}
         for k_, v_ in d2.items():
             box[k_] = norm_value(v_)
